@@ -484,7 +484,8 @@ class CallMixin:
                 if any(isinstance(a, VNone) for a in args):
                     return vals.BOTTOM
                 args = [a.val if isinstance(a, VOpt) else a for a in args]
-            elif getattr(fv, "external", False) and any(isinstance(a, VOpt) for a in args):
+            elif (getattr(fv, "external", False) and not getattr(fv, "accepts_none", False)
+                  and any(isinstance(a, VOpt) for a in args)):
                 # passing a possibly-None value to a library function: None is a TypeError there
                 na = []
                 for a in args:
